@@ -116,12 +116,12 @@ pub fn decode_op(r: &mut Rd) -> Op {
         15 => Op::TransferFrom { owner: r.u8() % 6, spender: r.u8() % 6, to: r.u8() % 9, st: r.bool(), frac: r.u16() },
         16 => Op::BurnFrom { owner: r.u8() % 6, spender: r.u8() % 6, st: r.bool(), frac: r.u16() },
         17 => Op::Claim { u: r.u8() % 8, to: if r.bool() { Some(r.u8() % 6) } else { None } },
-        18 | 19 => Op::Accrue { v: r.u8() % 5, coin: r.u8() % 4, amt: amt(r) },
+        18 | 19 => Op::Accrue { v: r.u8() % 5, coin: r.u8() % 5, amt: amt(r) },
         20 | 21 => Op::UpdateIndex { by: if r.u8() % 6 == 0 { 1 + r.u8() % 3 } else { 0 } },
         22 => Op::CheckSlashing { u: r.u8() % 6 },
         23 | 24 | 25 | 26 => Op::Advance { clock: clock(r) },
         27 | 28 => Op::Slash { v: r.u8() % 5, permille: 1 + r.u16() % 500, unbonding: r.bool() },
-        29 => Op::Donate { to: r.u8() % 3, coin: r.u8() % 4, amt: amt(r) },
+        29 => Op::Donate { to: r.u8() % 3, coin: r.u8() % 5, amt: amt(r) },
         30 => match r.u8() % 3 {
             0 => Op::AddVal { v: r.u8() % 5 },
             1 => Op::RemoveVal { v: r.u8() % 5 },
@@ -193,6 +193,7 @@ pub fn decode_c17(data: &[u8]) -> crate::props::c17::Case {
         bal_b: Uint128::new(r.amount()),
         bal_third: Uint128::new(if r.u8() % 4 == 0 { r.amount() } else { 0 }),
         bal_junk: Uint128::new(if r.u8() % 4 == 0 { r.amount() } else { 0 }),
+        bal_ibc: Uint128::new(if r.u8() % 3 == 0 { r.amount() } else { 0 }),
         bonded_b: Uint128::new(r.amount()),
         bonded_st: Uint128::new(r.amount()),
         rate_updates: {
@@ -201,7 +202,7 @@ pub fn decode_c17(data: &[u8]) -> crate::props::c17::Case {
         },
         denom_updates: {
             let k = r.u8() % 4;
-            (0..k).map(|_| (r.u8() % 4, r.u8() % 4 != 0)).collect()
+            (0..k).map(|_| (r.u8() % 5, r.u8() % 4 != 0)).collect()
         },
     }
 }
